@@ -11,6 +11,7 @@ META = {
     "level": "Decides the structural clauses: a cache entry is accepted only if its recorded ebuild checksum equals the current one, and — when it records eclasses — it has an INHERIT key and EVERY recorded eclass still exists with EVERY recorded checksum-kind value (location included for the flat format); otherwise the entry is rejected, deleted when the cache is writable, and metadata is regenerated. Does NOT decide concrete repositories.",
     "note": "",
 }
+META["technique"] += "; " + 'generic pack G on the anchored files (optional-flag shift, closures outliving a loop iteration, single-pass iterables consumed twice, %-templates built from data, in-place writes to class-level / memoised objects, generators mutating what they yielded, memo keys that are projections)'
 CM = "pkgcore.cache"
 EC = "pkgcore.ebuild.eclass_cache"
 ES = "pkgcore.ebuild.ebuild_src"
